@@ -12,7 +12,13 @@ package gcs
 
 //@ func gcs.(*Filter).readFullUint64
 //@   requires b != nil && f.p <= 32
+//@   ensures *b <= old(*b)
+//@   ensures err == nil ==> *b < old(*b)
+//@   ensures old(*b) >= 0 ==> *b >= 0
 //@   modifies *b
+//@   loop 1 invariant *b < old(*b) && (old(*b) >= 0 ==> *b >= 0)
+//@   loop 1 decreases *b
+//@   assert after ReadBits#1: $arg1 == int(f.p)
 
 //@ func gcs.(*Filter).N
 //@   ensures result == f.n
@@ -42,21 +48,25 @@ package gcs
 //@   requires f.p <= 32
 //@   modifies nothing
 //@   alloc len(f.filterData) + 64
-//@   loop 1 invariant i <= f.n
-//@   loop 1 decreases int(f.n) - int(i)
+//@   loop 1 invariant i <= f.n && b != nil && fresh(b) && *b >= 0
+//@   loop 1 decreases *b
 
 //@ func gcs.(*Filter).ZipMatchAny
 //@   requires f.p <= 32
 //@   modifies nothing
 //@   alloc len(f.filterData) + len(data) + 64
 //@   loop 1 invariant len(values) == $i && cap(values) == len(data) && fresh(values)
-//@   loop 2 invariant i <= f.n && 0 <= queryIndex && queryIndex <= querySize && querySize == len(values)
-//@   loop 3 invariant 0 <= queryIndex && queryIndex <= querySize && querySize == len(values) && i < f.n
+//@   loop 2 invariant i <= f.n && 0 <= queryIndex && queryIndex <= querySize && querySize == len(values) && b != nil && fresh(b) && *b >= 0
+//@   loop 2 decreases *b
+//@   loop 3 invariant 0 <= queryIndex && queryIndex <= querySize && querySize == len(values) && i < f.n && b != nil && fresh(b) && *b >= 0
+//@   loop 3 decreases querySize - queryIndex
 
 //@ func gcs.(*Filter).HashMatchAny
 //@   requires f.p <= 32
 //@   modifies nothing
 //@   alloc 8 * len(f.filterData) + len(data) + 64
+//@   loop 1 invariant b != nil && fresh(b) && *b >= 0 && values != nil
+//@   loop 1 decreases *b
 
 //@ func gcs.(*Filter).MatchAny
 //@   requires f.p <= 32
